@@ -14,7 +14,10 @@ CONSTANTS MaxSteps,   \* bound on behaviour length for the exhaustive check
           RmIds,      \* ids a caller removes
           Tpls,       \* table style templates
           TblIds,     \* style ids a caller passes to ApplyTableStyle
-          ListTypes, Shapes, Kinds, ViasC, HowsC, FreshC
+          ListTypes, Shapes, Kinds, ViasC, HowsC, FreshC,
+          OnIds,      \* ids a style added through the style API is based on (built-in, custom, unknown)
+          NoteKinds,  \* "fn" / "en"
+          Looks       \* what a caller reads: "styles" | "body" | "parts"
 
 VARIABLES st, hist, n
 vars == <<st, hist, n>>
@@ -23,7 +26,8 @@ On(x) == x \in OpNames
 OpsOf(s) ==
      (IF On("AddHeading") THEN {[op |-> "AddHeading", l |-> l] : l \in Lv} ELSE {})
   \cup (IF On("SetStyle") THEN {[op |-> "SetStyle", id |-> i] : i \in StyIds} ELSE {})
-  \cup (IF On("AddStyle") THEN {[op |-> "AddStyle", id |-> i, v |-> NextVer(VerOf(s.ver, i)), via |-> w] : i \in AddIds, w \in ViasC} ELSE {})
+  \cup (IF On("AddStyle") THEN {x \in {[op |-> "AddStyle", id |-> i, v |-> NextVer(VerOf(s.ver, i)), via |-> w, on |-> b] :
+                                                 i \in AddIds, w \in ViasC, b \in OnIds} : x.on # x.id} ELSE {})
   \cup (IF On("ModifyStyle") THEN {[op |-> "ModifyStyle", id |-> i, v |-> NextVer(VerOf(s.ver, i)), how |-> h] : i \in ModIds, h \in HowsC} ELSE {})
   \cup (IF On("RemoveStyle") THEN {[op |-> "RemoveStyle", id |-> i] : i \in RmIds} ELSE {})
   \cup (IF On("GenerateTOC") THEN {[op |-> "GenerateTOC", max |-> m] : m \in Maxes} ELSE {})
@@ -34,15 +38,18 @@ OpsOf(s) ==
                                       \cup {[op |-> "ApplyTableStyle", kind |-> "id", id |-> i] : i \in TblIds} ELSE {})
   \cup (IF On("CreateCustomTableStyle") THEN {[op |-> "CreateCustomTableStyle", id |-> "TS1"]} ELSE {})
   \cup (IF On("AddListItem") THEN {[op |-> "AddListItem", t |-> t] : t \in ListTypes} ELSE {})
-  \cup (IF On("AddNote") THEN {[op |-> "AddNote", k |-> k] : k \in {"fn", "en"}} ELSE {})
+  \cup (IF On("AddNote") THEN {[op |-> "AddNote", k |-> k] : k \in NoteKinds} ELSE {})
   \cup (IF On("RemoveNote") THEN {[op |-> "RemoveNote", k |-> x.k, id |-> x.id] : x \in s.notes} ELSE {})
   \cup (IF On("Save") THEN {[op |-> "Save", how |-> "ToBytes"]} ELSE {})
   \cup (IF On("SaveFile") THEN {[op |-> "Save", how |-> "Save"]} ELSE {})
   \cup (IF On("Reopen") THEN {[op |-> "Reopen", fresh |-> f] : f \in FreshC} ELSE {})
   \cup (IF On("OpenForeign") THEN {[op |-> "OpenForeign", shape |-> ForeignShape(x)] : x \in Shapes} ELSE {})
   \cup (IF On("Markdown") THEN {[op |-> "Markdown", kind |-> k] : k \in Kinds} ELSE {})
-  \* operations that emit no ids; RenderTemplate = load the document as a template and render it (a copy)
-  \cup {[op |-> x] : x \in OpNames \cap {"AddParagraph", "AddHeader", "AddFooter", "AddTable", "RenderTemplate"}}
+  \* operations that emit no ids; RenderTemplate = load the document as a template and render it (a copy);
+  \* Look = the caller reads (style manager, styles, paragraphs, tables) without changing anything;
+  \* Switch = go on with the other document of the process (a new one the first time)
+  \cup (IF On("Look") THEN {[op |-> "Look", what |-> w] : w \in Looks} ELSE {})
+  \cup {[op |-> x] : x \in OpNames \cap {"AddParagraph", "AddHeader", "AddFooter", "AddTable", "RenderTemplate", "Switch"}}
 
 Init == st = InitSt /\ hist = <<>> /\ n = 0
 
@@ -60,13 +67,16 @@ SpecGen == Init /\ [][NextGen]_vars
 
 \* ---- properties of the reference machine (C13 at design level) -----------
 \* whatever is saved now resolves every id, and carries every added/changed style
-Inv_Defined == Viol_C13(st, SaveView(st)) = {}
+Inv_Defined == /\ Viol_C13(st, SaveView(st)) = {}
+               /\ (st.alt # <<>> => Viol_C13(st.alt[1], SaveView(st.alt[1])) = {})
 Inv_Wf == /\ PendIds(st) \subseteq st.reg
           /\ {d.id : d \in st.ver} \subseteq st.reg
           /\ \A x \in st.nums : x.a \in st.abss
           /\ \A r \in st.nrefs : \E x \in st.nums : x.n = r.n
           /\ \A r \in st.noterefs : [k |-> r.k, id |-> r.id] \in st.notes
           /\ \A r \in st.refs : r.id \in st.reg \/ CallerOwned(r.by) \/ r.id \in st.removed
+          /\ {b.id : b \in st.based} \subseteq st.reg
+          /\ (st.alt # <<>> => st.alt[1].alt = <<>>)
 \* between saves, a registry style that differs from the styles part is pending or was registered by a helper
 Inv_Pending == st.hasPart =>
                  \A i \in st.reg : VerOf(st.ver, i) # VerOf(st.pver, i) => i \in PendIds(st)
@@ -78,10 +88,24 @@ Act_Save ==
 \* helpers never lose a definition
 Act_Keep ==
   [][\A op \in OpsOf(st) :
-        (st' = Apply(st, op) /\ op.op \notin StyleApi \cup {"OpenForeign", "Markdown"})
+        (st' = Apply(st, op) /\ op.op \notin StyleApi \cup {"OpenForeign", "Markdown", "Switch"})
            => /\ st.reg \subseteq st'.reg /\ st.ver = st'.ver
               /\ st.nums \subseteq st'.nums /\ st.abss \subseteq st'.abss
               /\ (op.op # "RemoveNote" => st.notes \subseteq st'.notes)]_vars
+
+\* RemoveStyle removes the style named and nothing else (styles based on it stay defined)
+Act_Remove ==
+  [][\A op \in OpsOf(st) :
+        (op.op = "RemoveStyle" /\ st' = Apply(st, op))
+           => (st'.reg = st.reg \ {op.id} /\ \A i \in st'.reg : VerOf(st'.ver, i) = VerOf(st.ver, i) /\ OnOf(st', i) = OnOf(st, i))]_vars
+\* two documents of one process do not touch each other: only Switch changes which one is current,
+\* switching there and back changes nothing, reading changes nothing
+Act_Isolated ==
+  [][\A op \in OpsOf(st) :
+        st' = Apply(st, op)
+           => /\ (op.op # "Switch" => st'.alt = st.alt)
+              /\ (op.op = "Switch" => st'.alt = <<Bare(st)>> /\ Apply(st', op) = [st EXCEPT !.alt = IF @ = <<>> THEN <<InitSt>> ELSE @])
+              /\ (op.op = "Look" => st' = st)]_vars
 
 \* ---- generation: print each complete behaviour once ----------------------
 Emit == Len(hist) < Depth \/ PrintT(<<"WZCASE", ToJson(hist)>>)
